@@ -17,8 +17,16 @@ impl StringBlock {
     pub fn parse<R: Read + Seek>(reader: &mut R, offset: u64, size: u32) -> Result<Self> {
         reader.seek(SeekFrom::Start(offset))?;
 
-        let mut data = vec![0u8; size as usize];
-        reader.read_exact(&mut data)?;
+        // `size` is untrusted: read at most `size` bytes and let the buffer grow with what the
+        // stream really holds instead of allocating `size` bytes up front.
+        let mut data = Vec::new();
+        reader.by_ref().take(size as u64).read_to_end(&mut data)?;
+        if data.len() != size as usize {
+            return Err(Error::InvalidStringBlock(format!(
+                "String block declares {size} bytes but only {} follow",
+                data.len()
+            )));
+        }
 
         Ok(Self { data })
     }
